@@ -110,3 +110,173 @@ Proof.
 Qed.
 Lemma bin_to_int_empty lend : bin_to_int [] lend = Raise ValueError.
 Proof. by destruct lend. Qed.
+
+(* ================================================================== 2. half adder, full adder *)
+From CG Require Import Proofs.LogicKit.
+
+Definition xor3 (a b c : bool) : bool := xorb (xorb a b) c.
+Definition maj (a b c : bool) : bool := (a && b) || (xorb a b && c).
+
+Ltac node_of H k name :=
+  match type of H with ∀ n i, (n, i) ∈ ?l → _ => pose proof (H _ _ (elem_of_list_lookup_2 l k _ eq_refl)) as name end.
+
+(* the ten gates of a full adder, under any naming q of its nodes that keeps the operand pairs apart *)
+Lemma fa_core_sem (q : string → string) o v :
+  q "x_y_ha_x" ≠ q "x_y_ha_y" → q "cin_s_ha_x" ≠ q "cin_s_ha_y" → q "x_y_ha_c" ≠ q "cin_s_ha_c" →
+  (∀ n i, (n, i) ∈ fa_core q o → node_ok v n i) →
+  v (q "s") = xor3 (v (q "x")) (v (q "y")) (v (q "cin")) ∧ v (q "cout") = maj (v (q "x")) (v (q "y")) (v (q "cin")).
+Proof.
+  intros N1 N2 N3 H.
+  node_of H 0 H0. node_of H 1 H1. node_of H 2 H2. node_of H 3 H3. node_of H 4 H4.
+  node_of H 5 H5. node_of H 6 H6. node_of H 7 H7. node_of H 8 H8. node_of H 9 H9.
+  apply node_ok_buf in H0, H1, H4, H5, H9.
+  apply node_ok_and2 in H2, H6; [|done..]. apply node_ok_xor2 in H3, H7; [|done..]. apply node_ok_or2 in H8; [|done].
+  rewrite H9, H8, H7, H6, H5, H4, H3, H2, H1, H0. unfold xor3, maj. split; [done|].
+  by destruct (v (q "x")), (v (q "y")), (v (q "cin")).
+Qed.
+
+Lemma half_adder_correct v : consistent (c_g half_adder) v →
+  v "s" = xorb (v "x") (v "y") ∧ v "c" = v "x" && v "y".
+Proof.
+  intros Hc.
+  assert (H : ∀ n i, (n, i) ∈ half_adder_l → node_ok v n i).
+  { apply consistent_list_to_map; [|exact Hc]. by apply (bool_decide_unpack _). }
+  node_of H 2 H2. node_of H 3 H3. apply node_ok_and2 in H2; [|done]. apply node_ok_xor2 in H3; [|done]. done.
+Qed.
+
+Lemma full_adder_correct v : consistent (c_g full_adder) v →
+  (N.b2n (v "s") + 2 * N.b2n (v "cout") = N.b2n (v "x") + N.b2n (v "y") + N.b2n (v "cin"))%N.
+Proof.
+  intros Hc.
+  assert (H : ∀ n i, (n, i) ∈ full_adder_l → node_ok v n i).
+  { apply consistent_list_to_map; [|exact Hc]. by apply (bool_decide_unpack _). }
+  destruct (fa_core_sem id true v) as [Hs Hco]; [done..| |].
+  { intros n i Hin. apply H. unfold full_adder_l. apply elem_of_app. by right. }
+  unfold id in *. rewrite Hs, Hco. unfold xor3, maj. by destruct (v "x"), (v "y"), (v "cin").
+Qed.
+
+(* ================================================================== 3. names of the ripple-carry adder *)
+(* the 16 node names of bit slice i, as a function of the decimal text p of i *)
+Definition slice_keys (p : string) : list string :=
+  [ "a_" +:+ p; "b_" +:+ p; "out_" +:+ p; "fa_" +:+ p +:+ "_x"; "fa_" +:+ p +:+ "_y"; "fa_" +:+ p +:+ "_cin";
+    "fa_" +:+ p +:+ "_x_y_ha_x"; "fa_" +:+ p +:+ "_x_y_ha_y"; "fa_" +:+ p +:+ "_x_y_ha_c"; "fa_" +:+ p +:+ "_x_y_ha_s";
+    "fa_" +:+ p +:+ "_cin_s_ha_x"; "fa_" +:+ p +:+ "_cin_s_ha_y"; "fa_" +:+ p +:+ "_cin_s_ha_c"; "fa_" +:+ p +:+ "_cin_s_ha_s";
+    "fa_" +:+ p +:+ "_cout"; "fa_" +:+ p +:+ "_s" ].
+Lemma adder_slice_keys i : (adder_slice i).*1 = slice_keys (pretty i).
+Proof. reflexivity. Qed.
+
+Definition slice_idx (s : string) : string := take_digits (after_us s).
+Ltac norm_names := unfold slice_keys, pre, bitname; rewrite ?sapp_cons, ?sapp_nil.
+Ltac split_mem H := repeat (apply elem_of_cons in H as [H|H]); [..|by apply elem_of_nil in H].
+
+Lemma take_digits_all p : str_all is_digit p = true → take_digits p = p.
+Proof.
+  intros H. transitivity (take_digits (p +:+ "")); [by rewrite string_app_empty_r|]. apply take_digits_app; [done|by left].
+Qed.
+Lemma slice_idx_keys p n : str_all is_digit p = true → n ∈ slice_keys p → slice_idx n = p.
+Proof.
+  intros Hp H. unfold slice_keys in H. split_mem H; subst n; unfold slice_idx; rewrite ?sapp_cons, ?sapp_nil; cbn [after_us Ascii.eqb Bool.eqb];
+    first [by apply take_digits_all | apply take_digits_app; [done|]; right; eexists _, _; split; reflexivity].
+Qed.
+Lemma slice_keys_c p n : n ∈ slice_keys p → ∃ c r, n = String c r ∧ c ≠ "c"%char.
+Proof.
+  intros H. unfold slice_keys in H. split_mem H; subst n; rewrite ?sapp_cons; eexists _, _; (split; [reflexivity|done]).
+Qed.
+Lemma slice_keys_NoDup p : NoDup (slice_keys p).
+Proof.
+  unfold slice_keys. rewrite ?sapp_cons, ?sapp_nil.
+  repeat (apply NoDup_cons; split;
+    [rewrite ?not_elem_of_cons; repeat split; try apply not_elem_of_nil;
+       (intros Hk; simplify_eq/=; try (apply (inj (String.append p)) in Hk; discriminate Hk))|]).
+  apply NoDup_nil_2.
+Qed.
+
+Lemma adder_keys w ci co :
+  (adder_l w ci co).*1 = "cin" :: flat_map (λ i, slice_keys (pretty i)) (seq 0 w) ++ (if co then ["cout"] else []).
+Proof.
+  unfold adder_l. rewrite fmap_cons, fmap_app, fmap_flat_map. f_equal. f_equal. by destruct co.
+Qed.
+Lemma adder_keys_NoDup w ci co : NoDup ((adder_l w ci co).*1).
+Proof.
+  rewrite adder_keys.
+  assert (Hc : ∀ n, n ∈ flat_map (λ i, slice_keys (pretty i)) (seq 0 w) → ∃ c r, n = String c r ∧ c ≠ "c"%char).
+  { intros n (i & _ & Hn)%elem_of_flat_map. by eapply slice_keys_c. }
+  apply NoDup_cons. split.
+  { intros [H|H]%elem_of_app.
+    - apply Hc in H as (c & r & [= <- _] & Hne). done.
+    - destruct co; [|by apply elem_of_nil in H]. apply elem_of_list_singleton in H. done. }
+  apply NoDup_app. split; [|split].
+  - apply NoDup_flat_map; [apply NoDup_seq|intros; apply slice_keys_NoDup|].
+    intros i j z _ _ Hi Hj. apply slice_idx_keys in Hi, Hj; try apply pretty_nat_digits.
+    apply (inj pretty). congruence.
+  - intros n Hn Hco. destruct co; [|by apply elem_of_nil in Hco]. apply elem_of_list_singleton in Hco. subst n.
+    apply Hc in Hn as (c & r & [= <- _] & Hne). done.
+  - destruct co; [apply NoDup_singleton|apply NoDup_nil_2].
+Qed.
+
+(* ================================================================== 4. ripple-carry adder, every width *)
+Section adder.
+  Context (w : nat) (ci co : bool) (v : val).
+  Hypothesis Hc : consistent (c_g (adder w ci co)) v.
+
+  Local Lemma adder_nodes : ∀ n i, (n, i) ∈ adder_l w ci co → node_ok v n i.
+  Proof. apply consistent_list_to_map; [apply adder_keys_NoDup|exact Hc]. Qed.
+
+  Local Lemma slice_nodes i : i < w → ∀ n inf, (n, inf) ∈ adder_slice i → node_ok v n inf.
+  Proof.
+    intros Hi n inf Hin. apply adder_nodes. unfold adder_l. right. apply elem_of_app. left.
+    apply elem_of_flat_map. exists i. split; [|done]. apply elem_of_seq. lia.
+  Qed.
+
+  Local Lemma pre_neq p s t : s ≠ t → pre p s ≠ pre p t.
+  Proof. intros Hne H. unfold pre in H. apply (inj (String.append p)) in H. apply (inj (String.append "_")) in H. done. Qed.
+
+  (* one bit: sum and carry *)
+  Lemma adder_bit i : i < w →
+    v (bitname "out_" i) = xor3 (v (bitname "a_" i)) (v (bitname "b_" i)) (v (carry_name i)) ∧
+    v (carry_name (S i)) = maj (v (bitname "a_" i)) (v (bitname "b_" i)) (v (carry_name i)).
+  Proof.
+    intros Hi. pose proof (slice_nodes i Hi) as H.
+    node_of H 2 Ho. node_of H 3 Hx. node_of H 4 Hy. node_of H 5 Hcin.
+    apply node_ok_buf in Ho, Hx, Hy, Hcin.
+    destruct (fa_core_sem (pre (bitname "fa_" i)) false v) as [Hs Hco]; [by apply pre_neq..| |].
+    { intros n inf Hin. apply H. unfold adder_slice, fa_sub. apply elem_of_app. right. apply elem_of_app. by right. }
+    rewrite Hx, Hy, Hcin in Hs, Hco. rewrite Ho. split; [exact Hs|exact Hco].
+  Qed.
+
+  Lemma adder_cin : v "cin" = ci && v "cin".
+  Proof.
+    assert (Hin : nd "cin" (if ci then Input else C0) false [] ∈ adder_l w ci co) by (unfold adder_l; left).
+    apply adder_nodes in Hin. revert Hin. clear. destruct ci; [done|]. intros Hin. exact Hin.
+  Qed.
+
+  Lemma adder_partial_sums k : k ≤ w →
+    (bitsN v "out_" k + 2 ^ N.of_nat k * N.b2n (v (carry_name k))
+     = bitsN v "a_" k + bitsN v "b_" k + N.b2n (v "cin"))%N.
+  Proof.
+    induction k as [|k IH]; intros Hk.
+    - unfold bitsN. cbn [seq foldr carry_name]. change (N.of_nat 0) with 0%N. rewrite N.pow_0_r. lia.
+    - specialize (IH ltac:(lia)). destruct (adder_bit k ltac:(lia)) as [Ho Hca].
+      rewrite !bitsN_S. fold (bitname "out_" k) (bitname "a_" k) (bitname "b_" k).
+      rewrite Ho, Hca, Nat2N.inj_succ, N.pow_succ_r'. unfold xor3, maj.
+      destruct (v (bitname "a_" k)), (v (bitname "b_" k)), (v (carry_name k)); cbn [xorb andb orb N.b2n] in *; lia.
+  Qed.
+
+  Theorem adder_correct :
+    let total := (bitsN v "a_" w + bitsN v "b_" w + N.b2n (ci && v "cin"))%N in
+    bitsN v "out_" w = (total mod 2 ^ N.of_nat w)%N ∧
+    (co = true → N.b2n (v "cout") = (total / 2 ^ N.of_nat w)%N).
+  Proof.
+    intros total. pose proof (adder_partial_sums w ltac:(lia)) as Hsum.
+    rewrite adder_cin in Hsum. fold total in Hsum.
+    pose proof (bitsN_lt v "out_" w) as Hlt.
+    assert (Hpos : (2 ^ N.of_nat w ≠ 0)%N) by (apply N.pow_nonzero; lia).
+    rewrite <- Hsum. split.
+    - rewrite N.mul_comm, N.mod_add by done. by rewrite N.mod_small.
+    - intros Hco. pose proof adder_nodes as H.
+      assert (Hin : nd "cout" Buf true [carry_name w] ∈ adder_l w ci co).
+      { unfold adder_l. rewrite Hco. right. apply elem_of_app. right. by left. }
+      apply H in Hin. apply node_ok_buf in Hin. rewrite Hin.
+      rewrite N.mul_comm, N.div_add by done. rewrite N.div_small by done. lia.
+  Qed.
+End adder.
